@@ -483,3 +483,75 @@ Qed.
 
 Lemma conv_wf v want r : wf v -> conv v want = COk r -> wf r.
 Proof. unfold conv. apply convert_wf. Qed.
+
+(* ---- more on conversions to primitive / dynamic targets ------------------------------------------ *)
+Lemma convert_nomark_pd want f v r :
+  pd_ty want = true -> is_mark v = false -> convert (S f) v want = COk r -> is_mark r = false.
+Proof.
+  intros Hpd Hm E. destruct (prim_head v) eqn:Hp.
+  - rewrite convert_prim_head in E by exact Hp.
+    destruct v; try discriminate Hp; destruct want; try discriminate Hpd; cbn in E;
+      repeat bm E; try discriminate E; injection E as <-; try reflexivity;
+      unfold finish_unknown; repeat match goal with |- context [match ?y with _ => _ end] => destruct y
+                                              | |- context [if ?y then _ else _] => destruct y end; reflexivity.
+  - destruct (cont_head v) eqn:Hc; [|destruct v; discriminate].
+    rewrite convert_cont_head in E by assumption. destruct (is_dyn want) eqn:Ed.
+    + injection E as <-. exact Hm.
+    + exfalso. revert E. apply convert_cont_head_err; assumption.
+Qed.
+
+Lemma conv_pd_is_star m want v r :
+  pd_ty want = true -> wf v -> conv v want = COk r -> is_star m r = is_star m v.
+Proof.
+  intros Hpd W E. unfold conv in E. destruct (is_mark v) eqn:Hm.
+  - destruct v; try discriminate Hm. cbn [val_size] in E. rewrite convert_mark in E.
+    destruct (convert (S (val_size v)) v want) as [r'| |] eqn:C; try discriminate E. injection E as <-.
+    unfold wf in W. cbn [wfb] in W. apply andb_true_iff in W as [N _]. apply negb_true_iff in N.
+    pose proof (convert_nomark_pd _ _ _ _ Hpd N C) as Nr.
+    rewrite is_star_with_marks. cbn [is_star]. destruct r'; try discriminate Nr; reflexivity.
+  - pose proof (convert_nomark_pd _ _ _ _ Hpd Hm E) as Nr.
+    destruct v; try discriminate Hm; destruct r; try discriminate Nr; reflexivity.
+Qed.
+
+(* conversions of low-equal unstarred values to a primitive / dynamic type succeed together *)
+Lemma conv_pd_cases m want v1 v2 :
+  pd_ty want = true -> leq m v1 v2 -> is_star m v1 = false -> wf v1 ->
+  (exists r1 r2, conv v1 want = COk r1 /\ conv v2 want = COk r2 /\ leq m r1 r2) \/
+  (conv v1 want = conv v2 want /\ forall r, conv v1 want <> COk r).
+Proof.
+  intros Hpd L Hs W.
+  assert (Core : forall u1 u2, leq m u1 u2 -> is_mark u1 = false ->
+            (exists r1 r2, convert (S (val_size u1)) u1 want = COk r1 /\ convert (S (val_size u2)) u2 want = COk r2 /\ leq m r1 r2) \/
+            (convert (S (val_size u1)) u1 want = convert (S (val_size u2)) u2 want /\
+             forall r, convert (S (val_size u1)) u1 want <> COk r)).
+  { intros u1 u2 Lu Nu. destruct (prim_head u1) eqn:Hp.
+    - assert (u1 = u2) by (apply (leq_prim_eq m); [exact Lu|destruct u1; try discriminate Hp; exact I]). subst u2.
+      destruct (convert (S (val_size u1)) u1 want) as [r| |] eqn:C.
+      + left. exists r, r. repeat split; auto.
+      + right. split; [reflexivity|discriminate].
+      + right. split; [reflexivity|discriminate].
+    - assert (Hc : cont_head u1 = true) by (destruct u1; try discriminate Hp; try discriminate Nu; reflexivity).
+      assert (Hc2 : cont_head u2 = true) by (leq_heads Lu; try discriminate Hc; reflexivity).
+      rewrite (convert_cont_head (val_size u1) u1), (convert_cont_head (val_size u2) u2) by assumption.
+      destruct (is_dyn want) eqn:Ed.
+      + left. exists u1, u2. repeat split; auto.
+      + right. split.
+        * destruct u1; try discriminate Hc; destruct u2; try discriminate Hc2; destruct want; try discriminate Hpd;
+            try discriminate Ed; reflexivity.
+        * intro r. apply convert_cont_head_err; assumption. }
+  unfold conv. destruct (unmark_leq _ _ _ L) as [[A _]|(A & B & C)].
+  { pose proof (marks_of_nostar _ _ Hs) as X. unfold marks_of in X. congruence. }
+  destruct (wf_unmark _ W) as [N _].
+  destruct v1 as [| | | | | | | | | |ms1 x1], v2 as [| | | | | | | | | |ms2 x2]; cbn [unmark fst snd] in *;
+    try (apply Core; [exact L|reflexivity]);
+    try (exfalso; unfold leq in L; cbn [erase] in L; destruct (mark_mem m ms1); discriminate L);
+    try (exfalso; unfold leq in L; cbn [erase] in L; destruct (mark_mem m ms2); discriminate L).
+  subst ms2. cbn [val_size]. rewrite !convert_mark.
+  destruct (Core x1 x2 C N) as [(r1 & r2 & E1 & E2 & Lr)|[E Hn]].
+  - left. exists (with_marks r1 ms1), (with_marks r2 ms1). rewrite E1, E2.
+    repeat split; try reflexivity. apply with_marks_leq; [exact Lr|apply marks_rel_refl].
+  - right. rewrite <- E. destruct (convert (S (val_size x1)) x1 want) as [r| |] eqn:Q.
+    + exfalso. eapply Hn. reflexivity.
+    + split; [reflexivity|discriminate].
+    + split; [reflexivity|discriminate].
+Qed.
